@@ -281,4 +281,63 @@ def r13_4(ctx):
     ctx.ob("R13.4", "From<LazyValue>:NonEscStrRaw-guard", ok and bool(sites), f.loc(), "the escape-free string representation is chosen only under no_escaped() and a leading quote")
 
 
-RULES = [("R13.1", r13_1), ("R13.2", r13_2), ("R13.3", r13_3), ("R13.4", r13_4)]
+def r13_5(ctx):
+    """the array/object facades handed out by as_array(&self)/as_object(&self) must be usable for every
+    representation they are handed out for: as_* keeps a shared value raw (its parse is cached), so the
+    facade's Deref has to serve the Raw representation as well as the Parsed one"""
+    prog = ctx.prog()
+    lp = prog.adts.get("sonic_rs::lazyvalue::owned::LazyPacked")
+    if not lp:
+        ctx.fail_closed("R13.5", "enum LazyPacked")
+        return
+    variants = {int(v["discr"]): v["name"] for v in lp["variants"]}
+    for acc, facade in (("as_array", "LazyArray"), ("as_object", "LazyObject")):
+        a = [f for f in prog.fns.values() if f.crate == "sonic_rs" and f.name == acc and (f.self_adt or "").endswith("owned::OwnedLazyValue") and (f.trait or "").endswith("JsonContainerTrait")]
+        d = [f for f in prog.fns.values() if f.crate == "sonic_rs" and f.name == "deref" and (f.trait or "").endswith("deref::Deref") and (f.self_adt or "").endswith(f"owned::{facade}")]
+        if len(a) != 1 or len(d) != 1:
+            ctx.fail_closed("R13.5", f"{acc} / Deref for {facade}")
+            continue
+        a, d = a[0], d[0]
+        def arms(fn):
+            out = {}
+            for b, t in fn.terms():
+                if t["k"] != "switch":
+                    continue
+                dl = op_local(t["discr"])
+                dd = fn.single_def(dl) if dl is not None else None
+                if not (dd and dd[0] == "stmt" and dd[3]["rv"]["k"] == "discr"):
+                    continue
+                pl = dd[3]["rv"]["p"]
+                # discriminant of the LazyPacked inside self
+                names = [e[2] for e in pl[1] if isinstance(e, list) and e[0] == "."]
+                ty_ok = "OwnedLazyValue" in fn.locals[pl[0]]["ty"] or facade in fn.locals[pl[0]]["ty"] or "LazyPacked" in fn.locals[pl[0]]["ty"]
+                if not ty_ok or (names and names[-1] != "0"):
+                    continue
+                if "Parsed" in fn.locals[pl[0]]["ty"] and not names:
+                    continue
+                edges = switch_edges(fn, b)
+                if not ({v for v, _ in edges if v is not None} <= set(variants)):
+                    continue
+                for dv, name in variants.items():
+                    tg = dict(edges).get(dv, dict(edges).get(None))
+                    if tg is not None and name not in out:
+                        out[name] = tg
+                break
+            return out
+        aa, da = arms(a), arms(d)
+        somes = [b for b, k, _ in return_kinds(a) if k == "Some"]
+        handed = sorted(v for v, tg in aa.items() if set(somes) & a.reachable_from(tg))
+        served = sorted(v for v, tg in da.items() if set(d.return_blocks) & d.reachable_from(tg))
+        ok = bool(handed) and set(handed) <= set(served)
+        ctx.ob("R13.5", f"{facade}:deref-serves-what-{acc}-hands-out", ok, d.loc(),
+               f"{acc}() hands out the facade for representations {handed}; Deref serves {served}" if ok else
+               f"{acc}() hands out the facade for representations {handed} but Deref only serves {served}: len()/iteration on a freshly deserialized value panics (unreachable!)")
+
+
+def r13_w(ctx):
+    """type-level witnesses (compile_fail doctests with error codes, each with a compiling twin)"""
+    from ..core import witness_obligations
+    witness_obligations(ctx, "R13.W", [('W3LazyValueBorrows', 'a borrowed LazyValue cannot outlive its input')])
+
+
+RULES = [("R13.1", r13_1), ("R13.2", r13_2), ("R13.3", r13_3), ("R13.4", r13_4), ("R13.5", r13_5), ("R13.W", r13_w)]
